@@ -2,6 +2,7 @@ package main
 
 import (
 	"fmt"
+	"os"
 	"go/ast"
 	"go/constant"
 	"go/token"
@@ -212,7 +213,13 @@ func (ex *Exec) freshVal(st *State, k *Kind, hint string) Val {
 				st.assume(Quant("forall", []*Term{i, j}, ex.rangeInv(k.Elem.Elem, e), []*Term{e}))
 			}
 		case "struct":
-			panic(unsupported("fresh symbolic slice of structs %s", hint))
+			s.FieldArr = map[string]*Term{}
+			for _, fd := range k.Elem.Fields {
+				if !fd.K.isScalar() {
+					panic(unsupported("fresh symbolic slice of structs with non-scalar field %s.%s", hint, fd.Name))
+				}
+				s.FieldArr[fd.Name] = Fresh(hint+"."+fd.Name, SArr(SInt, fd.K.sortOf()))
+			}
 		default:
 			s.Arr = Fresh(hint, SArr(SInt, k.Elem.sortOf()))
 			i := Var(fmt.Sprintf("i!q%d", nextQ()), SInt)
@@ -476,6 +483,10 @@ func (ex *Exec) nameLookup(st *State, pos token.Pos) func(string) (Val, bool) {
 		}
 		_, obj := scope.LookupParent(name, pos)
 		if obj == nil {
+			// a local declared later in the enclosing blocks: visible to specifications with its zero value
+			_, obj = scope.LookupParent(name, token.NoPos)
+		}
+		if obj == nil {
 			return nil, false
 		}
 		switch o := obj.(type) {
@@ -568,6 +579,9 @@ func (ex *Exec) run() (err error) {
 			case unsupportedErr:
 				err = e
 			case error:
+				if os.Getenv("VERIF_DEBUG") != "" {
+					panic(r)
+				}
 				err = e
 			default:
 				panic(r)
@@ -628,6 +642,11 @@ func (ex *Exec) run() (err error) {
 			}
 		}
 	}
+	if ex.ghostCells == nil {
+		ex.ghostCells = map[string]*Cell{}
+	}
+	ex.ghostCells["trace"] = theTraceCell
+	st.store[theTraceCell] = SV{T: Var("trace0", SInt)}
 	st.store[ex.ghostCell("stdoutWrites")] = SV{T: Zero}
 	st.store[ex.ghostCell("stdoutLast")] = mkVec(&Kind{K: "int"}, nil)
 	ex.entry = nil
@@ -780,6 +799,21 @@ func substVal(v Val, m map[*Term]*Term) Val {
 		}
 		r := *x
 		r.Len = Subst(x.Len, m)
+		if x.FieldArr != nil {
+			nf := map[string]*Term{}
+			ch := r.Len != x.Len
+			for k, a := range x.FieldArr {
+				nf[k] = Subst(a, m)
+				if nf[k] != a {
+					ch = true
+				}
+			}
+			if !ch {
+				return x
+			}
+			r.FieldArr = nf
+			return &r
+		}
 		r.Arr = Subst(x.Arr, m)
 		if x.Lens != nil {
 			r.Lens = Subst(x.Lens, m)
@@ -852,6 +886,20 @@ func (ex *Exec) checkPost(f *State, n int) {
 			}
 		}
 		return base(name)
+	}
+	// frame of the ghost trace: a function that emits events must declare `modifies trace`
+	if tv, ok := f.store[theTraceCell].(SV); ok && ex.entry != nil {
+		if ev, ok2 := ex.entry.store[theTraceCell].(SV); ok2 && tv.T != ev.T {
+			declared := false
+			for _, m := range ex.ct.Modifies {
+				if m.String() == "trace" {
+					declared = true
+				}
+			}
+			if !declared && len(ex.ct.Props) > 0 && ex.inlineDepth == 0 && ex.traceMatters() {
+				ex.fail("frame", fmt.Sprintf("frame(trace)@ret%d", n), "the function emits ghost trace events but its contract has no `modifies trace`", nil)
+			}
+		}
 	}
 	k := 0
 	for _, e := range ex.ct.Ensures {
@@ -2027,6 +2075,17 @@ func (ex *Exec) execLoopInvRange(st *State, spec *LoopSpec, ord int, n *ast.Rang
 
 func (ex *Exec) execGo(st *State, n *ast.GoStmt) []*State {
 	ex.note("go statement at %s: spawned goroutine body is verified separately, no interleaving explored", ex.pos(n))
+	if _, isLit := n.Call.Fun.(*ast.FuncLit); isLit {
+		ex.traceEvent(st, "go-literal")
+		return []*State{st}
+	}
+	fv := ex.evalExpr(st, n.Call.Fun)
+	switch f := fv.(type) {
+	case SV:
+		ex.traceEvent(st, "go", f.T)
+	case *FuncV:
+		ex.traceEvent(st, "go:"+f.Name)
+	}
 	return []*State{st}
 }
 
@@ -2179,4 +2238,14 @@ func (ex *Exec) runDefers(st *State) []*State {
 		}
 	}
 	return states
+}
+
+// traceMatters: the trace frame is enforced for functions whose contract mentions the trace at all.
+func (ex *Exec) traceMatters() bool {
+	for _, e := range ex.ct.Ensures {
+		if strings.Contains(e.Text, "trace") {
+			return true
+		}
+	}
+	return false
 }
